@@ -391,7 +391,22 @@ class Centres(Model):
 
     def __getitem__(self, k):
         step = (self.hi - self.lo) / (self.n - 1)
-        return Len(self.lo + step * k, self.unit)
+        v = self.lo + step * k
+        return Len(v, self.unit) if self.unit is not None else v        # no unit: the raw ndarray, its elements are numbers
+
+    def __mul__(self, o):
+        k = Sc.lift(o)
+        if k is None or self.unit is not None:
+            raise Unsupported("centres * %r" % (o,))
+        return Centres(self.lo * k, self.hi * k, self.n, None)
+
+    __rmul__ = __mul__
+
+    def __truediv__(self, o):
+        k = Sc.lift(o)
+        if k is None or self.unit is not None:
+            raise Unsupported("centres / %r" % (o,))
+        return Centres(self.lo / k, self.hi / k, self.n, None)
 
 
 class Len(Model):
@@ -503,7 +518,8 @@ def check_hilbert_cpu_list_fold(run, tree):
         construct = "%s::hilbert_cpu_list[%s]" % (HIL, label)
         try:
             rec.clear()
-            select = {("position_" + c): (lambda cs, c=c: Mask(A[c], B[c])) for c in axes}
+            seen = {}
+            select = {("position_" + c): (lambda cs, c=c: (seen.__setitem__(c, cs), Mask(A[c], B[c]))[1]) for c in axes}
             select["density"] = lambda a: Sym("unrelated")
             try:
                 out = ModelEval(tree, fi, {}, hooks).invoke(fi, [], {"meta": meta, "scaling": Scaling(), "select": select, "infofile": "INFO"}, None)
@@ -511,6 +527,16 @@ def check_hilbert_cpu_list_fold(run, tree):
                 run.violated(construct, fi.where(), "raises %s" % e, "a selection with %s" % label)
                 continue
             problems = []
+            # what the position predicates are evaluated on: the centres of the finest cells across the WHOLE box in physical units,
+            # c_k = (k + 1/2) * boxlen * scale / ncells (boxlen = %s in this fold)
+            box = Sc.lift(meta["boxlen"]) * Sc.sym("scale")
+            for c in axes:
+                cs = seen.get(c)
+                if not isinstance(cs, Centres):
+                    problems.append("the predicate on %s is evaluated on %r" % (c, cs))
+                elif not (cs.n == ncells and cs.lo == box / (2 * ncells) and cs.hi == box - box / (2 * ncells) and isinstance(cs.unit, LenUnit)):
+                    problems.append("the predicate on %s sees centres from %r to %r (%r of them, unit %r); required %r .. %r: the box is boxlen x unit_l wide" % (
+                        c, cs.lo, cs.hi, cs.n, cs.unit, box / (2 * ncells), box - box / (2 * ncells)))
             if out != ["CPUS"] or len(rec) != 1:
                 problems.append("returns %r after %d box searches" % (out, len(rec)))
             else:
